@@ -68,6 +68,19 @@ type model struct {
 	base    map[string]string // id -> based-on id, for every style the caller knows about
 	removed map[string]bool   // predefined ids removed through RemoveStyle and not re-created since
 
+	// template rendering (the current document object is the result of RenderTemplateToDocument on the previous one)
+	rendered bool // the current document object came from a render
+	// lastSaveStyles: style ids of the styles part in the last judged save of the current, never opened document object
+	// (nil = not saved yet). renderOfSaved: the current object was rendered from such a saved, never opened base.
+	lastSaveStyles    map[string]bool
+	renderOfSaved     bool
+	lateRendered      map[string]bool // ids created/changed through the style API on a document rendered from a saved base
+	renderLost        map[string]bool // style ids seen undefined on a document rendered from a saved base (stays lost over reopens)
+	extendAfterRender bool
+	notes             int
+	listsSinceOpen    int    // list ops on the current document object since it was opened
+	startNS           string // namespace scheme of the numbering/notes parts of the package the history started from
+
 	lists, fns, ens   int
 	listAfterOpen     bool
 	noteAfterOpen     bool
@@ -99,11 +112,50 @@ func (m *model) newDoc() {
 		m.base[k] = v
 	}
 	m.preNum, m.preFn, m.preEn, m.preStyles = nil, nil, nil, nil
+	m.rendered, m.renderOfSaved, m.lastSaveStyles = false, false, nil
+	m.lateRendered, m.renderLost = map[string]bool{}, map[string]bool{}
+	m.listsSinceOpen, m.startNS = 0, ""
+}
+
+// renderedFrom: the document object is replaced by the result of rendering it as a template base document
+// (TemplateEngine.LoadTemplateFromDocument + RenderTemplateToDocument with data that changes nothing): a copy
+// that starts with the definitions its base had. What the caller knows about registered styles, ids in use and
+// base relations carries over; the X4 expectations do not (the statement promises presence in the next save of
+// the document the style was given to, it is silent about copies).
+func (m *model) renderedFrom() {
+	m.rendered = true
+	if !m.opened && m.lastSaveStyles != nil {
+		m.renderOfSaved = true
+	}
+	m.want = map[string]map[string]string{}
+}
+
+// snapshot copies the bookkeeping that the verdict on a package of the (former) document object needs.
+func (m *model) snapshot() *model {
+	c := *m
+	cp := func(src map[string]bool) map[string]bool {
+		if src == nil {
+			return nil
+		}
+		d := make(map[string]bool, len(src))
+		for k, v := range src {
+			d[k] = v
+		}
+		return d
+	}
+	c.late, c.used, c.removed = cp(m.late), cp(m.used), cp(m.removed)
+	c.preNum, c.preFn, c.preEn, c.preStyles = cp(m.preNum), cp(m.preFn), cp(m.preEn), cp(m.preStyles)
+	c.lastSaveStyles, c.lateRendered, c.renderLost = cp(m.lastSaveStyles), cp(m.lateRendered), cp(m.renderLost)
+	c.want = map[string]map[string]string{} // a side document is judged on X1-X3 only
+	return &c
 }
 
 // openedFrom: the document object is replaced by one opened from a package observed as o.
 func (m *model) openedFrom(o *obs, fresh bool) {
 	m.saved, m.opened = true, true
+	m.listsSinceOpen = 0
+	m.rendered, m.renderOfSaved, m.lastSaveStyles = false, false, nil
+	m.lateRendered = map[string]bool{}
 	m.removed = map[string]bool{} // the registry of an opened document is the predefined set again
 	m.reg = map[string]string{}
 	m.preStyles = map[string]bool{}
@@ -171,10 +223,16 @@ func (m *model) touched(id string) {
 	if m.opened {
 		m.late[id] = true
 	}
+	if m.renderOfSaved {
+		m.lateRendered[id] = true
+	}
 	delete(m.removed, id)
 	m.sinceSave = true
 	if m.opened {
 		m.extendAfterOpen = true
+	}
+	if m.rendered {
+		m.extendAfterRender = true
 	}
 }
 
